@@ -147,8 +147,12 @@ def main():
             if m == modname or m.startswith(modname + '_')]
     hmod = sys.modules[modname]
 
-    gen_dir = os.path.join(HERE, '.gen', prop)
+    # one scratch directory per run: two runs of the same property at the same
+    # time must not share (and delete) each other's generated wrappers
+    gen_dir = os.path.join(HERE, '.gen', '%s.%d' % (prop, os.getpid()))
     os.makedirs(gen_dir, exist_ok=True)
+    import atexit, shutil
+    atexit.register(shutil.rmtree, gen_dir, True)
     os.makedirs(os.path.join(HERE, 'replays'),  exist_ok=True)
     os.makedirs(os.path.join(HERE, 'evidence'), exist_ok=True)
 
